@@ -44,6 +44,13 @@ GO_FAULTS = {
     "tworesults": ("AssignActions", lambda: {"parser.go": GOOD_GO.replace("func (p *calcParser) on_expr__num(t Token) int { return 1 }",
                                                                          "func (p *calcParser) on_expr__num(t Token) (int, error) { return 1, nil }")}),
     "badbounds": ("", lambda: {"parser.go": GOOD_GO + "\nfunc (p *calcParser) _onBounds(x int) {}\n"}),
+    # return types of one rule's methods that are assignable to each other but not identical (both declaration orders)
+    "rets-assignable-1": ("AssignActions", lambda: {"parser.go": GOOD_GO.replace("func (p *calcParser) on_expr__bin(l int, op Token, r int) int { return l + r }",
+                                                                                 "func (p *calcParser) on_expr__bin(l int, op Token, r int) any { return l + r }")}),
+    "rets-assignable-2": ("AssignActions", lambda: {"parser.go": GOOD_GO.replace("func (p *calcParser) on_expr__num(t Token) int { return 1 }",
+                                                                                 "func (p *calcParser) on_expr__num(t Token) any { return 1 }")}),
+    "rets-named-int": ("AssignActions", lambda: {"parser.go": GOOD_GO.replace("func (p *calcParser) on_expr__num(t Token) int { return 1 }",
+                                                                              "type MyInt int\n\nfunc (p *calcParser) on_expr__num(t Token) MyInt { return 1 }")}),
 }
 STAGE_ORDER = ["ParseLox", "PreParseGo", "EmitBase", "EmitLexer", "ParseGo", "AssignActions", "EmitParser"]
 
